@@ -8,11 +8,20 @@
 //!   wav <fmt> <channels> <rate> <n> <codes-hex>    file := orig := twin's bytes; StaticSoundData::from_cursor
 //!   raw <bytes-hex>                                file := orig := bytes; static load
 //!   mut.xor <pos> <mask> | mut.trunc <len>         file := single-point mutation of orig; static load
+//!   mut.lie <dRiff> <dData>                        file := orig with the RIFF / data-chunk length fields increased
+//!                                                  (the header promises more frames than the file holds); static load
 //!   st.new <start> <a> <b> | st.new <start> - -    StreamingSoundData::from_cursor(file) (+slice), split
 //!   st.run <k> | st.seek <idx> <k>                 (seek_to(idx) then) k hook-stepped scheduler iterations;
 //!                                                  the frames pushed are rendered out of the real sound
+//!   st.thread                                      the stream is handed to a REAL decoder thread (`DecodeScheduler::start`)
+//!                                                  and played out frame by frame: `thread finished` | `thread stopped <err>`
 //!   asset <file> <start> <steps>                   shipped asset: static load vs streaming (both real code)
 //!   asset.mut <file> xor <pos> <mask> | trunc <len>  mutation of a shipped asset (third-party robustness test)
+//!
+//! Streams read their bytes through `CountingSource` (a `MediaSource` over a cursor that counts the reads
+//! answered with "end of file"): a scheduler iteration that keeps reading past the end of the file is cut
+//! off after `EOF_READ_LIMIT` such reads and reported as a hang (`stream_terminates`) without leaving a
+//! spinning thread behind; the 20 s watchdog of `run_cases` remains the net for any other hang.
 //!
 //! The mutation ops are *testing of third-party Symphonia* (its demuxers/decoders are not modelled beyond
 //! the PCM-WAV path); their oracles are labelled `sym_*`.
@@ -25,10 +34,12 @@ use kira::sound::{FromFileError, PlaybackPosition, Sound};
 use kira::verif_hooks::streaming::{split, HNextStep, HScheduler};
 use kira::Frame;
 use std::collections::HashMap;
-use std::io::Cursor;
+use std::io::{Cursor, Read, Seek, SeekFrom};
 use std::panic::{catch_unwind, AssertUnwindSafe};
+use std::sync::atomic::{AtomicBool, AtomicUsize, Ordering};
 use std::sync::{Arc, Mutex, OnceLock};
-use std::time::Duration;
+use std::time::{Duration, Instant};
+use symphonia::core::io::MediaSource;
 
 const ASSET_DIR: &str = "/repo/crates/examples/assets";
 /// shipped assets small enough to decode many times per run (the large `dynamic/*` stems are
@@ -157,6 +168,66 @@ fn find_step(rate: u32) -> Option<(f64, f64)> {
 	None
 }
 
+/// reads answered with "end of file" that one scheduler iteration may make before it is cut off
+/// (the real code makes one per `decode` call at the end of the data, and a failing `decode` ends
+/// the iteration)
+const EOF_READ_LIMIT: usize = 256;
+/// "end of file" reads after which a decoder thread must have reported its error (each failing
+/// `decode` makes one such read and returns before the next one can happen)
+const EOF_READ_GRACE: usize = 64;
+const TRIP_MSG: &str = "kv-wav: the decoder keeps reading past the end of the file";
+
+struct SrcShared {
+	/// reads that returned 0 bytes for a non-empty buffer since the last `arm`
+	eof_reads: AtomicUsize,
+	/// panic out of `read` when `eof_reads` exceeds this (hand-stepped mode)
+	limit: AtomicUsize,
+	tripped: AtomicBool,
+	/// the harness has given this stream up: the next read panics (ends an abandoned decoder thread)
+	kill: AtomicBool,
+}
+impl SrcShared {
+	fn arm(&self, limit: usize) {
+		self.eof_reads.store(0, Ordering::SeqCst);
+		self.limit.store(limit, Ordering::SeqCst);
+	}
+}
+
+/// the bytes of a file as a `MediaSource` (what `from_cursor` does), counting end-of-file reads
+struct CountingSource {
+	cur: Cursor<Vec<u8>>,
+	sh: Arc<SrcShared>,
+}
+impl Read for CountingSource {
+	fn read(&mut self, buf: &mut [u8]) -> std::io::Result<usize> {
+		if self.sh.kill.load(Ordering::SeqCst) {
+			panic!("kv-wav: stream abandoned by the harness");
+		}
+		let n = self.cur.read(buf)?;
+		if n == 0 && !buf.is_empty() {
+			let c = self.sh.eof_reads.fetch_add(1, Ordering::SeqCst) + 1;
+			if c > self.sh.limit.load(Ordering::SeqCst) {
+				self.sh.tripped.store(true, Ordering::SeqCst);
+				panic!("{}", TRIP_MSG);
+			}
+		}
+		Ok(n)
+	}
+}
+impl Seek for CountingSource {
+	fn seek(&mut self, pos: SeekFrom) -> std::io::Result<u64> {
+		self.cur.seek(pos)
+	}
+}
+impl MediaSource for CountingSource {
+	fn is_seekable(&self) -> bool {
+		true
+	}
+	fn byte_len(&self) -> Option<u64> {
+		Some(self.cur.get_ref().len() as u64)
+	}
+}
+
 enum Loaded {
 	Ok(u32, Arc<[Frame]>),
 	Err(&'static str),
@@ -182,7 +253,12 @@ fn show_loaded(l: &Loaded) -> String {
 struct Stream {
 	sound: Box<dyn Sound>,
 	handle: StreamingSoundHandle<FromFileError>,
-	sched: HScheduler<FromFileError>,
+	/// `None` once the scheduler has been handed to a real decoder thread (`st.thread`)
+	sched: Option<HScheduler<FromFileError>>,
+	src: Arc<SrcShared>,
+	/// the stream is on a RIFF/WAVE file whose static load is `reference`: a frame at a position the
+	/// static load does not have is an invented sample
+	strict: bool,
 	rate: u32,
 	dt: f64,
 	ended: bool,
@@ -201,14 +277,22 @@ enum RunEnd {
 	End,
 	Err(&'static str),
 	Panic,
+	/// an iteration kept reading past the end of the file (`EOF_READ_LIMIT`)
+	Hang,
 }
 
 /// k scheduler iterations; the frames pushed are rendered out of the sound; returns them
 fn stream_run(s: &mut Stream, k: usize) -> (Vec<Frame>, RunEnd) {
 	let mut pushed = 0usize;
 	let mut end = RunEnd::More;
+	let Some(sched) = s.sched.as_mut() else {
+		return (vec![], RunEnd::End);
+	};
+	// (a case abandoned by the watchdog inside the loop below never decrements this)
+	IN_SCHEDULER.fetch_add(1, Ordering::SeqCst);
 	for _ in 0..k {
-		let r = catch_unwind(AssertUnwindSafe(|| s.sched.run()));
+		s.src.arm(EOF_READ_LIMIT);
+		let r = catch_unwind(AssertUnwindSafe(|| sched.run()));
 		match r {
 			Ok(Ok(HNextStep::Continue)) => pushed += 1,
 			Ok(Ok(HNextStep::End)) => {
@@ -222,11 +306,13 @@ fn stream_run(s: &mut Stream, k: usize) -> (Vec<Frame>, RunEnd) {
 				break;
 			}
 			Err(_) => {
-				end = RunEnd::Panic;
+				end = if s.src.tripped.load(Ordering::SeqCst) { RunEnd::Hang } else { RunEnd::Panic };
 				break;
 			}
 		}
 	}
+	IN_SCHEDULER.fetch_sub(1, Ordering::SeqCst);
+	s.src.arm(usize::MAX);
 	let mut out = vec![Frame::ZERO; pushed];
 	if pushed > 0 {
 		let info = MockInfoBuilder::new().build();
@@ -245,13 +331,14 @@ fn show_run(frames: &[Frame], end: &RunEnd) -> String {
 		RunEnd::End => " end".to_string(),
 		RunEnd::Err(k) => format!(" {}", k),
 		RunEnd::Panic => " panic".to_string(),
+		RunEnd::Hang => " hang".to_string(),
 	};
 	format!("n={} frames={}{}", frames.len(), show_frames_z(frames), tail)
 }
 
 /// static-vs-stream oracle: every frame the stream delivered is the static frame at the
 /// transport position it was produced for (zero outside the slice / the audio)
-fn check_stream_frames(s: &mut Stream, frames: &[Frame], out: &mut Out, ctx: &str) {
+fn check_stream_frames(s: &mut Stream, frames: &[Frame], out: &mut Out, ctx: &str, op: &str) {
 	if let Some(reference) = &s.reference {
 		for f in frames {
 			let want = if s.pos < s.num_frames {
@@ -259,6 +346,14 @@ fn check_stream_frames(s: &mut Stream, frames: &[Frame], out: &mut Out, ctx: &st
 			} else {
 				Some(Frame::ZERO)
 			};
+			if want.is_none() && s.strict {
+				// the stream delivered a frame for a position that the static load of the very same
+				// bytes does not have (a truncated / lying file): an invented sample.
+				// (detail = the op line, so that the replay is the case up to this op)
+				out.oracle_fail("stream_prefix_of_static", op);
+				s.reference = None;
+				return;
+			}
 			if let Some(w) = want {
 				if !same_frame_z(f, &w) {
 					out.oracle_fail(
@@ -283,16 +378,130 @@ fn check_stream_frames(s: &mut Stream, frames: &[Frame], out: &mut Out, ctx: &st
 	}
 }
 
+/// wall-clock allowance for a decoder thread to play a (≤ 3000-frame) file out; shortened once
+/// two streams have missed it, so that a tree in which every such stream hangs is still checked
+/// in bounded time
+fn thread_deadline() -> Duration {
+	if DEADLINE_MISSES.load(Ordering::SeqCst) >= 2 {
+		Duration::from_secs(2)
+	} else {
+		Duration::from_secs(12)
+	}
+}
+static DEADLINE_MISSES: AtomicUsize = AtomicUsize::new(0);
+/// hand-stepped scheduler calls in flight; at the start of an op every one of them belongs to an
+/// earlier case that the watchdog gave up on (`fault hang`) and whose thread is still spinning
+static IN_SCHEDULER: AtomicUsize = AtomicUsize::new(0);
+/// streams of earlier cases that hang for good (a thread each that cannot be stopped).  After three
+/// of them — each already reported as `fault hang` / `stream_terminates` — further streaming ops of
+/// this process are not executed, so that a tree in which every such stream hangs is still
+/// checked in bounded time instead of piling up spinning threads.
+fn hung_streams() -> usize {
+	IN_SCHEDULER.load(Ordering::SeqCst) + DEADLINE_MISSES.load(Ordering::SeqCst)
+}
+
+/// `st.thread`: hand the scheduler to a real decoder thread (`DecodeScheduler::start`) and play the
+/// sound out one frame per `process` call, as an audio thread would.  Oracles:
+///  * `stream_terminates` — the sound must come to an end (finished: `Stopped`, with or without an
+///    error on the handle).  Detected without waiting where possible: once the source has answered
+///    more than `EOF_READ_GRACE` reads with "end of file", a failing `decode` has returned (each makes
+///    one such read), so the thread has stored `encountered_error` *before* our next `process`, which
+///    must therefore stop the sound; otherwise a wall-clock deadline.
+///  * `stream_prefix_of_static` — what was audible is a prefix of the static load of the same bytes
+///    from the stream's position (silence while waiting for the decoder is skipped), never more.
+///  * `stream_thread_complete` — finished without an error ⇒ every frame up to the end was audible.
+fn stream_thread(s: &mut Stream, op: &str, out: &mut Out) -> String {
+	let sched = s.sched.take().expect("st.thread without a scheduler");
+	s.ended = true;
+	s.src.arm(usize::MAX);
+	sched.start();
+	let info = MockInfoBuilder::new().build();
+	let deadline = Instant::now() + thread_deadline();
+	let mut audible: Vec<Frame> = vec![];
+	let mut hang = false;
+	while !s.sound.finished() {
+		// (read the counter BEFORE `process`: see above)
+		let eofs = s.src.eof_reads.load(Ordering::SeqCst);
+		s.sound.on_start_processing();
+		let mut buf = [Frame::ZERO; 1];
+		s.sound.process(&mut buf, s.dt, &info);
+		audible.push(buf[0]);
+		if s.sound.finished() {
+			break;
+		}
+		if eofs > EOF_READ_GRACE {
+			hang = true;
+			break;
+		}
+		if Instant::now() > deadline {
+			DEADLINE_MISSES.fetch_add(1, Ordering::SeqCst);
+			hang = true;
+			break;
+		}
+		if buf[0] == Frame::ZERO {
+			std::thread::yield_now();
+		}
+	}
+	if hang {
+		// end the abandoned decoder thread at its next read (it is spinning in `frame_at_index`)
+		s.src.kill.store(true, Ordering::SeqCst);
+		out.oracle_fail("stream_terminates", op);
+		return "thread hang".into();
+	}
+	s.sound.on_start_processing();
+	let err = s.handle.pop_error();
+	// audible frames: a prefix of the static frames from the current position, interleaved with silence
+	if let Some(reference) = s.reference.clone() {
+		let mut p = s.pos;
+		let mut bad = false;
+		for f in &audible {
+			let want = if p < s.num_frames { reference.get(s.slice_start + p).copied() } else { None };
+			match want {
+				Some(w) if same_frame_z(f, &w) => p += 1,
+				_ if same_frame_z(f, &Frame::ZERO) => {}
+				_ => {
+					bad = true;
+					break;
+				}
+			}
+		}
+		if bad {
+			if s.strict {
+				out.oracle_fail("stream_prefix_of_static", op);
+			}
+		} else if err.is_none() {
+			let all = s.num_frames.min(reference.len().saturating_sub(s.slice_start));
+			if p < all && s.pos < all {
+				out.oracle_fail("stream_thread_complete", op);
+			}
+		}
+		s.pos = p;
+	}
+	match err {
+		None => "thread finished".into(),
+		Some(e) => format!("thread stopped {}", err_name(&e)),
+	}
+}
+
 fn open_stream(
 	bytes: &[u8],
 	start: usize,
 	slice: Option<(usize, usize)>,
 	rate_hint: Option<u32>,
 	reference: Option<Arc<[Frame]>>,
+	strict: bool,
 ) -> Result<Stream, String> {
 	let v = bytes.to_vec();
 	let r = catch_unwind(AssertUnwindSafe(|| -> Result<Stream, String> {
-		let mut data = StreamingSoundData::from_cursor(Cursor::new(v)).map_err(|e| err_name(&e).to_string())?;
+		// `from_media_source(source)` is `from_cursor(cursor)` with our counting cursor
+		let src = Arc::new(SrcShared {
+			eof_reads: AtomicUsize::new(0),
+			limit: AtomicUsize::new(usize::MAX),
+			tripped: AtomicBool::new(false),
+			kill: AtomicBool::new(false),
+		});
+		let source = CountingSource { cur: Cursor::new(v), sh: src.clone() };
+		let mut data = StreamingSoundData::from_media_source(source).map_err(|e| err_name(&e).to_string())?;
 		data = data.start_position(PlaybackPosition::Samples(start));
 		let rate = rate_hint.unwrap_or(1);
 		let (p, dt) = find_step(rate).unwrap_or((1.0, 1.0 / rate as f64));
@@ -303,7 +512,9 @@ fn open_stream(
 		Ok(Stream {
 			sound,
 			handle,
-			sched,
+			sched: Some(sched),
+			src,
+			strict,
 			rate,
 			dt,
 			ended: false,
@@ -380,7 +591,7 @@ fn run_steps(s: &mut Stream, steps: &str, out: &mut Out, ctx: &str) -> String {
 		if matches!(end, RunEnd::Panic) {
 			out.oracle_fail("no_panic", format!("{} :: streaming step {}", ctx, st));
 		}
-		check_stream_frames(s, &frames, out, ctx);
+		check_stream_frames(s, &frames, out, ctx, ctx);
 		res.push(show_run(&frames, &end));
 	}
 	res.join(" | ")
@@ -502,12 +713,40 @@ fn exec(st: &mut State, op: &str, twin: &str, out: &mut Out) {
 			let b = st.orig[..len.min(st.orig.len())].to_vec();
 			set_file(st, b, false, "", twin, op, out);
 		}
+		"mut.lie" => {
+			let dr: u32 = tok[1].parse().unwrap();
+			let dd: u32 = tok[2].parse().unwrap();
+			let mut b = st.orig.clone();
+			for (off, d) in [(4usize, dr), (40usize, dd)] {
+				if b.len() >= off + 4 {
+					let v = u32::from_le_bytes([b[off], b[off + 1], b[off + 2], b[off + 3]]).wrapping_add(d);
+					b[off..off + 4].copy_from_slice(&v.to_le_bytes());
+				}
+			}
+			set_file(st, b, false, "", twin, op, out);
+		}
+		"st.run" | "st.seek" | "st.thread" if hung_streams() >= 3 => {
+			out.put("not-run: three earlier streams hang");
+		}
+		"st.thread" => match &mut st.stream {
+			None => out.put("nostream"),
+			Some(s) if s.ended || s.sched.is_none() => {
+				let _ = s;
+				out.put("ended")
+			}
+			Some(s) => {
+				let line = stream_thread(s, op, out);
+				out.put(line);
+			}
+		},
 		"st.new" => {
 			let start: usize = tok[1].parse().unwrap();
 			let slice = if tok[2] == "-" { None } else { Some((tok[2].parse().unwrap(), tok[3].parse().unwrap())) };
 			let rate = st.file_loaded.as_ref().map(|x| x.0).or_else(|| header_rate(&st.file));
 			let reference = st.file_loaded.as_ref().map(|x| x.1.clone());
-			match open_stream(&st.file, start, slice, rate, reference) {
+			// RIFF/WAVE: static load and stream go through the same demuxer packets
+			let strict = st.file.len() >= 4 && &st.file[0..4] == b"RIFF";
+			match open_stream(&st.file, start, slice, rate, reference, strict) {
 				Ok(s) => {
 					let line = format!("ok n={}", s.num_frames);
 					st.stream = Some(s);
@@ -544,7 +783,12 @@ fn exec(st: &mut State, op: &str, twin: &str, out: &mut Out) {
 					if matches!(end, RunEnd::Panic) {
 						out.oracle_fail("no_panic", format!("{} :: {}", ctx, panic_msg()));
 					}
-					check_stream_frames(s, &frames, out, &ctx);
+					if matches!(end, RunEnd::Hang) {
+						// one scheduler iteration read past the end of the file more than EOF_READ_LIMIT
+						// times: `frame_at_index` does not return (detail = the op: replay = the case so far)
+						out.oracle_fail("stream_terminates", op);
+					}
+					check_stream_frames(s, &frames, out, &ctx, op);
 					out.put(show_run(&frames, &end));
 				}
 			}
@@ -555,7 +799,7 @@ fn exec(st: &mut State, op: &str, twin: &str, out: &mut Out) {
 				None => out.put("asset missing-or-unloadable"),
 				Some(a) => {
 					let start: usize = tok[2].parse().unwrap();
-					match open_stream(&a.bytes, start, None, Some(a.rate), Some(a.frames.clone())) {
+					match open_stream(&a.bytes, start, None, Some(a.rate), Some(a.frames.clone()), false) {
 						Ok(mut s) => {
 							if s.num_frames != a.frames.len() {
 								out.oracle_fail("asset_num_frames", format!("{} :: streaming num_frames {} static {}", op, s.num_frames, a.frames.len()));
@@ -605,7 +849,7 @@ fn exec(st: &mut State, op: &str, twin: &str, out: &mut Out) {
 						Loaded::Ok(_, f) => Some(f.clone()),
 						_ => None,
 					};
-					match open_stream(&b, 0, None, Some(a.rate), reference) {
+					match open_stream(&b, 0, None, Some(a.rate), reference, false) {
 						Ok(mut s) => {
 							let _ = run_steps(&mut s, "r700,r700", out, op);
 						}
@@ -781,7 +1025,14 @@ fn gen_stream_ops(rng: &mut Rng, stats: &mut Stats, frames: usize, lines: &mut V
 	}
 	stats.hit("st.new");
 	let steps = 1 + rng.below(6);
-	for _ in 0..steps {
+	// one case in four ends by playing the rest out through a real decoder thread
+	let thread_after = if rng.chance(1, 4) { Some(rng.below(3)) } else { None };
+	for i in 0..steps {
+		if thread_after == Some(i) {
+			lines.push("st.thread".into());
+			stats.hit("st.thread");
+			return;
+		}
 		let k = match rng.below(5) {
 			0 => 1,
 			1 => 1 + rng.below(5) as usize,
@@ -804,6 +1055,101 @@ fn gen_stream_ops(rng: &mut Rng, stats: &mut Stats, frames: usize, lines: &mut V
 			lines.push(format!("st.run {}", k));
 			stats.hit("st.run");
 		}
+	}
+}
+
+/// a file that holds fewer frames than its header promises (cut inside the data chunk, or the
+/// length fields increased), STREAMED up to and past the point where the data ends: hand-stepped
+/// and through a real decoder thread
+fn gen_short_file_stream(rng: &mut Rng, stats: &mut Stats, w: &Wav, lines: &mut Vec<String>) {
+	let block = w.ch * w.bytes_per;
+	let data_len = w.data_len();
+	// (frames wholly present, frames the header promises)
+	let (present, promised) = if rng.chance(1, 2) || w.frames == 0 {
+		// the header lies: data-chunk length (and normally the RIFF length) increased
+		let extra_frames = match rng.below(5) {
+			0 => 1,
+			1 => rng.pick(&[1151usize, 1152, 1153, 2304]),
+			2 => 1 + rng.below(5) as usize,
+			_ => 1 + rng.below(3000) as usize,
+		};
+		let mut dd = (extra_frames * block) as u64;
+		if rng.chance(1, 6) {
+			dd += rng.below(block as u64); // not a whole number of frames
+		}
+		if rng.chance(1, 12) {
+			dd = rng.pick(&[0x7fff_0000u64, 0x4000_0000, 0x0100_0000]); // a huge promise
+		}
+		let dr = match rng.below(8) {
+			0 => 0, // RIFF length not adjusted: the reader refuses the data chunk
+			1 => dd + 1,
+			_ => dd,
+		};
+		lines.push(format!("mut.lie {} {}", dr, dd));
+		stats.hit("mut.lie");
+		// (the RIFF pad byte of an odd-sized data chunk becomes data)
+		(w.frames, (data_len as u64 + dd) as usize / block.max(1))
+	} else {
+		let keep = match rng.below(4) {
+			0 => 0,
+			1 => w.frames - 1,
+			_ => rng.below(w.frames as u64) as usize,
+		};
+		let partial = if rng.chance(1, 2) { rng.below(block as u64) as usize } else { 0 };
+		lines.push(format!("mut.trunc {}", 44 + keep * block + partial));
+		stats.hit("mut.trunc.data");
+		(keep, w.frames)
+	};
+	let span = promised.min(present + 4000);
+	// mostly from the beginning, sometimes from inside / just before / after the missing part
+	let start = match rng.below(8) {
+		0 => present.saturating_sub(1),
+		1 => present,
+		2 => (present + 1).min(span),
+		3 => rng.below(span as u64 + 1) as usize,
+		_ => 0,
+	};
+	if rng.chance(1, 8) && present > 0 {
+		let a = rng.below(present as u64) as usize;
+		let b = (a + 1 + rng.below(span as u64 + 1) as usize).min(promised);
+		lines.push(format!("st.new {} {} {}", start.min(b.saturating_sub(a)), a, b.max(a)));
+	} else {
+		lines.push(format!("st.new {} - -", start));
+	}
+	stats.hit("short.st.new");
+	// the finale: a real decoder thread (then the hand-stepped part mostly stays before the edge) or
+	// a hand-stepped run over the edge
+	let thread_finale = rng.chance(3, 5);
+	let room = present.saturating_sub(start);
+	for _ in 0..rng.below(3) {
+		let k = match rng.below(4) {
+			0 => 1,
+			1 => room + rng.below(3) as usize,             // up to the edge
+			2 => present + 1 + rng.below(8) as usize,      // over the edge
+			_ => 1 + rng.below(1400) as usize,
+		}
+		.max(1);
+		let k = if thread_finale && room > 1 && rng.chance(3, 4) { 1 + rng.below(room as u64 / 2) as usize } else { k };
+		if rng.chance(1, 3) {
+			let idx = match rng.below(5) {
+				0 => present,
+				1 => present.saturating_sub(1),
+				2 => (present + 1 + rng.below(1200) as usize).min(span),
+				_ => rng.below(span as u64 + 1) as usize,
+			};
+			lines.push(format!("st.seek {} {}", idx, k));
+			stats.hit("short.st.seek");
+		} else {
+			lines.push(format!("st.run {}", k));
+			stats.hit("short.st.run");
+		}
+	}
+	if thread_finale {
+		lines.push("st.thread".into());
+		stats.hit("short.st.thread");
+	} else {
+		lines.push(format!("st.run {}", present + 2 + rng.below(1300) as usize));
+		stats.hit("short.st.run-out");
 	}
 }
 
@@ -860,7 +1206,7 @@ pub fn gen(rng: &mut Rng, n: usize, thorough: bool, stats: &mut Stats) -> Vec<St
 	let mut lines = vec![];
 	for case in 0..n {
 		lines.push(format!("case {}", case));
-		match rng.below(20) {
+		match rng.below(22) {
 			// round trip only: every format, channel counts 1..6 and a few large ones, extreme values
 			0..=6 => {
 				let w = gen_wav(rng, stats, &[1, 1, 2, 2, 1, 2, 1, 2, 3, 4, 6, 26, 1, 2, 27, 32, 0, 1, 2, 2], false, 3000);
@@ -887,9 +1233,27 @@ pub fn gen(rng: &mut Rng, n: usize, thorough: bool, stats: &mut Stats) -> Vec<St
 					let nonfinite = gen_mutation(rng, stats, &w, &mut lines);
 					if streamable && !nonfinite && rng.chance(1, 3) {
 						lines.push("st.new 0 - -".into());
-						lines.push(format!("st.run {}", 1 + rng.below(1400)));
+						if rng.chance(1, 3) {
+							// a few hand-stepped frames, the rest through a real decoder thread
+							lines.push(format!("st.run {}", 1 + rng.below(12)));
+							lines.push("st.thread".into());
+							stats.hit("mut.st.thread");
+						} else {
+							lines.push(format!("st.run {}", 1 + rng.below(1400)));
+						}
 						stats.hit("mut.stream");
 					}
+				}
+			}
+			// files shorter than their header says, streamed over the edge
+			18..=19 => {
+				let w = gen_wav(rng, stats, &[1, 2], true, 2400);
+				let streamable = find_step(w.rate).is_some();
+				lines.push(w.line.clone());
+				if streamable {
+					gen_short_file_stream(rng, stats, &w, &mut lines);
+				} else {
+					stats.hit("st.skipped-rate");
 				}
 			}
 			// shipped assets
